@@ -175,6 +175,14 @@ class Model():
         An asset matching the name if it exists in the model.
         """
 
+        if not allow_duplicate_names and hasattr(asset, 'name') \
+                and asset.name in self.asset_names:
+            # Refuse before anything is reserved for the asset
+            raise ValueError(
+                f'Asset name {asset.name} is a duplicate'
+                ' and we do not allow duplicates.'
+            )
+
         # Set asset ID and check for duplicates
         asset.id = asset_id if asset_id is not None else self.next_id
         if asset.id in self.asset_ids:
